@@ -128,6 +128,8 @@ def grid_points(inplace_too=True):
         pts.append({"label": "ad3_m%d" % ml, "defs": ["TJV_AD=3", "TJV_ML=%d" % ml, "TJV_WITNESS"]})
         if inplace_too:
             pts.append({"label": "ad3_m%d_inplace" % ml, "defs": ["TJV_AD=3", "TJV_ML=%d" % ml, "INPLACE", "TJV_WITNESS"]})
+    pts.append({"label": "ad0_m0_null", "defs": ["TJV_AD=0", "TJV_ML=0", "TJV_NULLS", "TJV_WITNESS"]})
+    pts.append({"label": "ad0_m5_null", "defs": ["TJV_AD=0", "TJV_ML=5", "TJV_NULLS", "TJV_WITNESS"]})
     return pts
 
 
